@@ -81,6 +81,123 @@ def scan_derived(tn, f, e, depth=0):
     return False
 
 
+# ---- assertions whose condition is true by simple interval / congruence reasoning --------------------------------
+def _iv(facts, f, e, at, depth=0):
+    """(lo, hi, modulus) of an unsigned integer expression at block `at`, or None.  Knows bit counts (0..=width), masks
+    that clear low bits (multiples of a power of two), div / rem by constants, and `!= 0` guards that dominate `at`."""
+    sy = sym(f)
+    if depth > 8:
+        return None
+    k = e[0]
+    if k == "c" and isinstance(e[1], int):
+        return (e[1], e[1], 0)
+    if k == "cast":
+        return _iv(facts, f, e[2], at, depth + 1)
+    if k == "l":
+        o = sy.origin(e)
+        r = _iv(facts, f, o, at, depth + 1) if o != e else None
+    elif k == "call" and norm(e[2]).rsplit("::", 1)[-1] in ("trailing_zeros", "leading_zeros", "count_ones", "count_zeros"):
+        w = 64
+        for wn in ("u8", "u16", "u32", "u64", "u128"):
+            if "<impl %s>" % wn in e[2]:
+                w = int(wn[1:])
+        r = (0, w, 1)
+    elif k == "bin":
+        op = e[1].replace("Unchecked", "")
+        a = _iv(facts, f, e[2], at, depth + 1)
+        mask = None
+        if op == "BitAnd":
+            m = e[3]
+            if m[0] == "un" and m[1] == "Not" and m[2][0] == "c":
+                mask = ~m[2][1]
+            elif m[0] == "c":
+                mask = m[1]
+        if op == "BitAnd" and a is not None and mask is not None:
+            low = (mask & -mask) if mask & ((1 << 64) - 1) else 1  # lowest set bit: everything below is cleared
+            hi = a[1] & mask if mask < 0 else min(a[1], mask)
+            r = (0, hi, low)
+        elif op in ("Div", "Rem") and a is not None and e[3][0] == "c" and e[3][1] > 0:
+            c0 = e[3][1]
+            if op == "Div":
+                r = (a[0] // c0, a[1] // c0, 1)
+            else:
+                r = (0, 0, 0) if a[2] and a[2] % c0 == 0 else (0, c0 - 1, 1)
+        else:
+            r = None
+    else:
+        r = None
+    if r is None:
+        return None
+    lo, hi, mod = r
+    # a dominating `!= 0` test of the same value
+    g = guards.holds(f, at, lambda fa: (fa[0] == "cmp" and fa[1] == "Ne" and fa[3] == ("c", 0) and strip_bb(fa[2]) == strip_bb(e)) or (fa[0] == "notin" and 0 in fa[2] and strip_bb(fa[1]) == strip_bb(e)))
+    if g and lo == 0:
+        lo = mod if mod > 1 else 1
+    return (lo, hi, mod)
+
+
+def _truth(facts, f, fact, at):
+    """True / False / None for an edge fact under _iv"""
+    sy = sym(f)
+    if fact[0] == "cmp":
+        a, b = _iv(facts, f, fact[2], at), _iv(facts, f, fact[3], at)
+        if a is None or b is None:
+            return None
+        op = fact[1]
+        if op in ("Eq", "Ne"):
+            eq = True if (a[0] == a[1] == b[0] == b[1]) else (False if (a[1] < b[0] or b[1] < a[0]) else None)
+            return eq if op == "Eq" or eq is None else (not eq)
+        lt = {"Lt": (a[1] < b[0], a[0] >= b[1]), "Le": (a[1] <= b[0], a[0] > b[1]), "Gt": (a[0] > b[1], a[1] <= b[0]), "Ge": (a[0] >= b[1], a[1] < b[0])}[op]
+        return True if lt[0] else (False if lt[1] else None)
+    if fact[0] == "bool":
+        e = fact[1]
+        if e[0] == "call" and norm(e[2]).endswith("RangeInclusive::contains") and len(e[3]) == 2:
+            rng, x = e[3]
+            if rng[0] == "promoted":
+                pf = [g for i, g in facts.fns.items() if norm(i) == rng[1]]
+                rng = sym(pf[0]).place({"l": 0, "p": []}) if pf else rng
+            if rng[0] == "call" and norm(rng[2]).endswith("RangeInclusive::new") and rng[3][0][0] == "c" and rng[3][1][0] == "c":
+                v = _iv(facts, f, x, at)
+                if v is not None:
+                    inside = rng[3][0][1] <= v[0] and v[1] <= rng[3][1][1]
+                    outside = v[1] < rng[3][0][1] or v[0] > rng[3][1][1]
+                    val = True if inside else (False if outside else None)
+                    return None if val is None else (val == fact[2])
+        if e[0] == "c":
+            return bool(e[1]) == fact[2]
+    return None
+
+
+def assertion_holds(facts, f, bi):
+    """the panic in block bi is the failure arm of an assertion all of whose ways in are edges that cannot be taken"""
+    c = cfg(f)
+    seen, st, edges = set(), [bi], []
+    while st:
+        x = st.pop()
+        if x in seen:
+            continue
+        seen.add(x)
+        for p in c.pred[x]:
+            tp = f.term(p)
+            if tp["k"] == "goto":
+                st.append(p)
+            elif tp["k"] == "switch":
+                fs = [fa for tgt, fa in guards.switch_edges(f, p) if tgt == x]
+                if len(fs) != 1:
+                    return None
+                edges.append((p, fs[0]))
+            else:
+                return None
+    if not edges:
+        return None
+    why = []
+    for p, fa in edges:
+        if _truth(facts, f, fa, p) is not False:
+            return None
+        why.append(guards.show_fact(f, fa)[:50])
+    return "no way into the failure arm can be taken: each needs " + " / ".join(why) + ", which interval and congruence reasoning refutes"
+
+
 def classify(facts, tn, f, bi, kind, t):
     sy = sym(f)
     nid = norm(f.id)
@@ -90,6 +207,9 @@ def classify(facts, tn, f, bi, kind, t):
             return "internal-assert", "debug assertion on the reader's own invariant (C02/C14)"
         if (nid, "panic") in RESIDUAL:
             return "residual", RESIDUAL[(nid, "panic")]
+        ah = assertion_holds(facts, f, bi)
+        if ah:
+            return "assertion-true", ah
         if t.get("exp"):
             # unwrap-like expansions (unreachable!, assert!) in parser code
             return None, "explicit panic in parser-reachable code"
